@@ -272,22 +272,6 @@ def install_execute2(w):
 
     w.add_contract(
         Contract(
-            "fakesnow.transforms_merge.merge",
-            params={"merge_expr": E},
-            requires=[],
-            result=ListT(E),
-            fresh_result=True,
-            modifies=[],
-            may_raise=[AssertionError, sqlglot.errors.ParseError],
-            ensures={"C12.explode.nonempty": "len(result) >= 1", "C12.explode.passthrough": "implies(not isinstance(merge_expr, exp.Merge), len(result) == 1 and result[0] is merge_expr)"},
-            props=["C12"],
-            assumed=True,
-            trusted_base="transforms_merge.merge: contract assumed here, decided by the C12 check",
-        )
-    )
-    w.contracts["fakesnow.transforms.merge"] = w.contracts["fakesnow.transforms_merge.merge"]
-    w.add_contract(
-        Contract(
             M + "_transform_explode",
             params={"self": Cur, "expression": E},
             requires=[],
